@@ -394,10 +394,19 @@ func H_C11_seeds() {
 	if vInEngine() {
 		vAssert("associations-draw-their-SEIDs-from-different-streams", len(seeds) == 2 && seeds[0] != seeds[1])
 	} else {
-		a, b := c1.rng.Uint64(), c2.rng.Uint64()
-		vAssert("associations-draw-their-SEIDs-from-different-streams", a != b)
+		// natively the two creations may straddle a clock boundary that happens to
+		// separate the seeds; a few more pairs created back to back settle it
+		same := c1.rng.Uint64() == c2.rng.Uint64()
 		c1.Close()
 		c2.Close()
+		for try := 0; try < 6 && !same; try++ {
+			d1 := node.NewPFCPConn("127.0.0.1:0", "127.0.0.1:18805", nil)
+			d2 := node.NewPFCPConn("127.0.0.1:0", "127.0.0.1:18806", nil)
+			same = d1.rng.Uint64() == d2.rng.Uint64()
+			d1.Close()
+			d2.Close()
+		}
+		vAssert("associations-draw-their-SEIDs-from-different-streams", !same)
 	}
 	vCover("seeds")
 }
